@@ -234,8 +234,12 @@ def _gen(ctx, r, cfgname, n, depth, label, fine=False, subs=(), excluded=()):
 def run(ctx):
     ctx.assumptions += [
         "numbers: integers |v| <= 32000, or 16.16 fixed point |v| <= 2000 (TLC integers are 32-bit)",
-        "div, mul, sqrt are generated only with exact results; random only where its value cannot matter",
-        "endchar with 4/5 operands (seac) and operand-count faults other than an empty stack are outside the oracle",
+        "mul rounds its product to 16.16, halves away from zero (as FreeType's FT_MulFix); a div result that is not "
+        "a 16.16 number is modelled only as an operand of a path operator (rounded the same way) and only for "
+        "|dividend| < 1/2 (32-bit TLC integers); sqrt only with exact results; random only where its value cannot matter",
+        "endchar with adx ady bchar achar (deprecated seac form): 4 operands carry no width, 5 do; the composition "
+        "of the named glyphs is outside the model -- the glyph's own outline is compared (what the tree returns)",
+        "operand-count faults other than an empty stack are outside the oracle",
         "subroutine bias rule taken from TN5176 section 16; nesting limit 10 from TN5177 appendix B",
         "a charstring that reads a transient cell it has not written has no specified value; the only demand is "
         "that its decode is the same alone and inside any font (independence), compared between two real decodes",
@@ -274,9 +278,19 @@ def run(ctx):
     fails = r.replay(res.cases, "exhaustive two-glyph fonts", one_variant=ctx.quick())
     r.report(fails, "exhaustive")
 
+    # 1c. 16.16 arithmetic at the representation boundary (ties of mul / div, both signs, one unit either side)
+    res = ctx.tlc("Type2MC", cfg="X.cfg", files={"X.cfg": _cfg("Type2Tie.cfg", subs=sub[:1])},
+                  timeout=900, label="Type2 exhaustive (16.16 ties of mul and div)")
+    if not res.ok:
+        raise vlib.Infra("Type2.tla (ties) violates %s on the model -- the spec is wrong, not the code:\n%s"
+                         % (res.violated, res.error_text[:1500]))
+    ctx.sample({"tie_case": res.cases[len(res.cases) // 3]})
+    fails = r.replay(res.cases, "exhaustive 16.16 tie programs", one_variant=ctx.quick())
+    r.report(fails, "exhaustive")
+
     # 2. one operator per behaviour
     for fine in ([False] if ctx.quick() else [False, True]):
-        cases = _gen(ctx, r, "Type2Feat.cfg", ctx.pick(2000, 12000), 2000,
+        cases = _gen(ctx, r, "Type2Feat.cfg", ctx.pick(1800, 12000), 2000,
                      "Type2 feature programs (%s)" % ("16.16" if fine else "integers"), fine=fine)
         ctx.sample({"feature_case": cases[0]})
         fails = r.replay(cases, "feature programs")
@@ -284,7 +298,7 @@ def run(ctx):
 
     # 2b. fonts of three glyphs over the operators with interpreter-level state (transient array, hint
     # counts, width, random, calls): every glyph alone, in the font, in the reversed font, across two FDs
-    cases = _gen(ctx, r, "Type2Feat.cfg", ctx.pick(300, 3000), 3000, "Type2 state fonts (three glyphs)",
+    cases = _gen(ctx, r, "Type2Feat.cfg", ctx.pick(240, 3000), 3000, "Type2 state fonts (three glyphs)",
                  subs=[("NGs <- OneGlyph", "NGs <- ThreeGlyphs"), ("Feats <- AllFeats", "Feats <- StateFeats")])
     fails = r.replay(cases, "state fonts")
     r.report(fails, "fonts")
@@ -304,7 +318,7 @@ def run(ctx):
 
     # 4. single-fault programs
     for fine in ([False] if ctx.quick() else [False, True]):
-        cases = _gen(ctx, r, "Type2Fault.cfg", ctx.pick(400, 3000), 2000,
+        cases = _gen(ctx, r, "Type2Fault.cfg", ctx.pick(320, 3000), 2000,
                      "Type2 fault programs (%s)" % ("16.16" if fine else "integers"), fine=fine)
         ctx.sample({"fault_case": cases[0]})
         fails = r.replay(cases, "fault programs")
